@@ -197,6 +197,21 @@ def rule_own(env, shared):
                               "the remainder split of %s %s" % (nm, "modifies its split index" if arith2 else
                                                                 "is reachable from shared (&self) callers or ignores its index"),
                               True))
+        # ---- (g) a chunk of a consuming iterator owns the elements reserved for it (an owning view), so that the part the
+        #          caller does not consume — break, panic, discarded chunk — is still dropped exactly once
+        from r_m1 import is_view
+        for u in m.units:
+            if u.world["iter"] != adt or u.kind == "single":
+                continue
+            k = "OWN.g|%s|%s|chunk-owns-its-elements" % (nm, u.kind)
+            views = [e for e in u.events if is_view(e)]
+            if views:
+                out.append(Ob("OWN.g", k, "ok", views[0].loc(), "the reserved elements are handed out as an owning view", True))
+            else:
+                out.append(Ob("OWN.g", k, "viol", u.body.file_line(),
+                              "the %s pull of %s reserves a run of elements but does not hand them out as an owning view: the "
+                              "position counter is already past them, so elements the caller does not consume (early break, "
+                              "panic in the loop body, discarded chunk) are never dropped" % (u.kind, nm)))
         # ---- (f) a vector taken out of the ManuallyDrop storage still *lists* the delivered elements: before it is dropped
         #          its length must be set to 0 (it may only release the allocation), unless it is re-wrapped / returned
         for b in own_bodies:
